@@ -34,15 +34,20 @@ def _entries():
         f = _elffile.ELFFile(io.BytesIO(data))
         f.interpreter
 
+    FULL = {"implementation_name": "cpython", "implementation_version": "3.9.1", "os_name": "posix", "platform_machine": "x86_64",
+            "platform_release": "5.0", "platform_system": "Linux", "platform_version": "1", "python_full_version": "3.9.1",
+            "platform_python_implementation": "CPython", "python_version": "3.9", "sys_platform": "linux"}
+    # partial and complete environments; `extra` missing, a name, empty and None (the legacy spelling of "no extra")
+    ENVS = ({}, {"os_name": "posix", "python_version": "3.9", "extra": "a"}, {"python_full_version": "3.13.0+", "extra": None},
+            dict(FULL), dict(FULL, extra=None), dict(FULL, extra=""), dict(FULL, extra="A_b", python_full_version="3.13.0+"))
+
     def marker_eval(s):
         try:
             m = markers.Marker(s)
         except markers.InvalidMarker:
             return
-        for env in ({}, {"os_name": "posix", "python_version": "3.9", "extra": "a"}, {"python_full_version": "3.13.0+", "extra": None}):
-            m.evaluate(env)
-
-    ENVS = ({}, {"os_name": "posix", "python_version": "3.9", "extra": "a"}, {"python_full_version": "3.13.0+", "extra": None})
+        for env in ENVS:
+            m.evaluate(dict(env))
 
     def req_marker_eval(s):
         # the marker attached to a parsed requirement (built without Marker.__init__) must fail the same way
